@@ -130,6 +130,9 @@ def letters(shape):
     add("nested_dup@rev_lists", (allr[::-1], np.array(allc[::-1])), lambda: nested(M, N, 19), allr[::-1], allc[::-1], nested_dense(M, N, 19))
     add("nested_empty@full", full, lambda: CooMatrix((M, N)), allr, allc, np.zeros((M, N)))
     add("nested_1x1@int,int", (r_last, 0), lambda: nested(1, 1, 21), [r_last], [0], nested_dense(1, 1, 21))
+    # ---- a write while a converted matrix that shares the container's buffers is still alive (tocoo / tocsr / tocsc default copy=False):
+    # the write either goes through or fails loudly; in both cases the container stays consistent (seeded C15-m)
+    L.append(("held_tocoo:dense@full", lambda: (full, 0.5 * np.ones((M, N)), ("held", np.asarray(allr, int), np.asarray(allc, int), 0.5 * np.ones((M, N))))))
     # ---- inconsistent block shapes: must be rejected and change nothing
     reject("bad:dense_too_wide", full, lambda: np.ones((M, N + 1)))
     reject("bad:dense_transposed_or_tall", full, lambda: np.ones((M + 1, N)))
@@ -174,6 +177,24 @@ def _apply(coo, ref, make, fails, hist_names):
     except Exception as e:  # building a nested container uses the container itself
         fails.append({"site": "building a nested container from consistent writes raises", "msg": f"{type(e).__name__}: {e}; history {hist_names}", "data": {"history": list(hist_names)}})
         return False
+    if expect[0] == "held":
+        keep = coo.tocoo()
+        try:
+            coo[key] = value
+            ok = True
+        except BufferError:
+            ok = False      # loud refusal: nothing may have been appended
+        except Exception as e:  # noqa
+            fails.append({"site": "write while a converted matrix is alive raises something else than BufferError", "msg": f"{type(e).__name__}: {e}; history {hist_names}", "data": {"history": list(hist_names)}})
+            ok = False
+        del keep
+        if not (len(coo.data) == len(coo.row) == len(coo.col)):
+            fails.append({"site": "refused write left the container inconsistent", "msg": f"lengths data/row/col = {len(coo.data)}/{len(coo.row)}/{len(coo.col)}; history {hist_names}",
+                          "data": {"history": list(hist_names)}})
+        if ok:
+            _, rows, cols, block = expect
+            np.add.at(ref, (rows[:, None], cols[None, :]), block)
+        return ok
     before = None
     if expect[0] == "reject":
         before = coo.toarray().copy() if coo.shape[0] * coo.shape[1] >= 0 else None
